@@ -83,6 +83,16 @@ ADDENDA = {
     "C19": " Later additions: the convenience wrappers (safe_load(_all), full_load(_all), unsafe_load(_all), safe_dump_all, serialize) and the Unsafe / CBase classes; harness classes with path resolvers; dumps into genuine io.BytesIO / io.StringIO objects (after the caller lets go of the exception the stream must still be open and hold a prefix); object-API streams of 30-80 documents in which a user constructor fails every time below deep-constructing user constructors (each failure must be the injected instance, every other document the fault-free value, a fault-free follow-up clean).",
 }
 
+# facets added in the session of waves 10-12 (appended after ADDENDA)
+ADDENDA2 = {
+    "C10": " Operation yext: the yaml_loader list a YAMLObject class sees (YAMLObject's own included) is extended in place; the model keeps list identity and the module-level helpers must still fan out to the three documented classes only.",
+    "C11": " Step kind preempt: at the k-th line event of a call in progress the trace function runs another complete call (often a twin of the pre-empted one) and / or advances the other party's in-flight generator tasks - what a signal handler or another thread obtaining the GIL there does; both calls are compared with their isolated references.",
+    "C16": " Dump histories also contain the same value dumped under OTHER options / by another dumper class and a dump cut short by a failing write(); neighbour keys include twins under Unicode normalisation and case folding; the multi-document clause writes the same container object twice with other contents.",
+    "C18": " 15 % of the streams are written in scripts of 3-4 UTF-8 bytes per character (text streams into the C input handler).",
+    "C19": " Caller-owned code also covers what the python/object tags run (callable of python/object/apply, __init__ / __setstate__ of python/object(/new), __reduce_ex__); callback-fault load cases also pass the document in memory; marked YAML errors with marks among the kinds; open-ended root-scalar documents right before a document whose callback can fail.",
+
+}
+
 ENGINE = {
     "name": "pyyaml-sim",
     "path": "/verif/sim",
@@ -101,7 +111,7 @@ def main():
             "evidence_file": "/verif/evidence/%s.json" % pid,
             "replay_cmd_template": "./check %s --replay {path}" % pid,
             "engine": "pyyaml-sim",
-            "level_claimed": {"category": c['category'], "text": c['text'] + ADDENDA.get(pid, ''), "design_ref": c['design_ref']},
+            "level_claimed": {"category": c['category'], "text": c['text'] + ADDENDA.get(pid, '') + ADDENDA2.get(pid, ''), "design_ref": c['design_ref']},
             "level_note": c['note'],
             "technique": c['technique'],
         })
